@@ -47,6 +47,7 @@ type emu struct {
 	toks    []tok
 	logTok  bool
 	nDSR    int
+	nOut    int // bytes received from the library so far
 	keepRaw bool
 	raw     []byte
 }
@@ -83,6 +84,7 @@ func (e *emu) resize(w, h int) {
 		}
 	}
 	e.grid, e.w, e.h = ng, w, h
+	e.tok(tok{Tok: "resize", A: w, B: h})
 	if e.r >= h {
 		e.r = h - 1
 	}
@@ -95,6 +97,7 @@ func (e *emu) resize(w, h int) {
 func (e *emu) setHold(h bool) { e.mu.Lock(); e.hold = h; e.mu.Unlock() }
 func (e *emu) held() int      { e.mu.Lock(); defer e.mu.Unlock(); return len(e.heldQ) }
 func (e *emu) queries() int   { e.mu.Lock(); defer e.mu.Unlock(); return e.nDSR }
+func (e *emu) progress() int  { e.mu.Lock(); defer e.mu.Unlock(); return e.nDSR*1000003 + e.nOut }
 
 // releaseBefore writes extra bytes followed by the answers to n held cursor queries, in one write.
 func (e *emu) releaseBefore(n int, extra []byte) {
@@ -140,6 +143,7 @@ func (e *emu) run() {
 				e.raw = append(e.raw, buf[:n]...)
 			}
 			e.pend = append(e.pend, buf[:n]...)
+			e.nOut += n
 			e.process()
 			e.mu.Unlock()
 		}
